@@ -149,6 +149,10 @@ def worker(job, extra):
                 res['viol'].append(('ps_trajectory_mismatch', (nid, v[2], (s, e), (r.service_start_date, r.exit_date), cap, R)))
                 break
             res['worst'] = max(res['worst'], err)
+        # nobody stays behind: a customer still at the node at the end although the model released it long before
+        for v in visits:
+            if v[4] is None and v[2] in exp and exp[v[2]][1] < spec['T'] - 5.0:
+                res['viol'].append(('ps_customer_never_left', (nid, v[2], exp[v[2]], spec['T']))); break
         # at most `cap` in service: records' [start, exit) intervals overlap at most cap deep
         evs = []
         for v in visits:
